@@ -380,7 +380,13 @@ pub mod sp {
         ensures #[trigger] ks.take(n) == ks
     { assert(ks.take(n) =~= ks); }
 
-    pub broadcast group group_wf { b_take_contains, b_take_full, b_suffix_refl, b_suffix_pop, b_rm1_index, b_push_subrange, b_push_drop_last, b_insert_remove_same, b_push_last, b_wf_push, b_wf_mutated, b_rm_all_nodup, b_wf_len, b_rm1_len, b_wf_remove, b_wf_store, b_wf_touch, b_nodup_pos,
+    /// removing a key that is not stored changes nothing
+    pub broadcast proof fn b_remove_absent<V>(m: Map<String, V>, k: String)
+        requires !m.contains_key(k)
+        ensures #[trigger] m.remove(k) == m
+    { assert(m.remove(k) =~= m); }
+
+    pub broadcast group group_wf { b_remove_absent, b_take_contains, b_take_full, b_suffix_refl, b_suffix_pop, b_rm1_index, b_push_subrange, b_push_drop_last, b_insert_remove_same, b_push_last, b_wf_push, b_wf_mutated, b_rm_all_nodup, b_wf_len, b_rm1_len, b_wf_remove, b_wf_store, b_wf_touch, b_nodup_pos,
         b_pop_front_is_remove0, b_drop_first_is_remove0, b_pop_back_is_remove_last }
 
     // ---- memory totals: the sum of a per-entry size along the queue (under wf the queue enumerates the store exactly once)
